@@ -1321,6 +1321,7 @@ func runC16Residency(t *testing.T, spec RunSpec, prog *compiled) *Verdict {
 		goruntime.GC()
 		goruntime.GC()
 		goruntime.ReadMemStats(&after)
+		goruntime.KeepAlive(env) // (the VM is still in use: what it holds on to counts)
 	})
 	v.absorb(P, res)
 	if v.Class != "" {
